@@ -54,7 +54,7 @@ pub struct VecValue {
 }
 
 impl VecValue {
-    pub fn slice(&mut self, left: Option<usize>, right: Option<usize>) {
+    pub fn slice(&mut self, left: Option<usize>, right: Option<usize>) -> Option<()> {
         debug_assert!(matches!(
             self.structure.members.get_mut(0).map(|m| &m.value),
             Some(Value::Array(_))
@@ -65,8 +65,9 @@ impl VecValue {
             ..
         }) = self.structure.members.get_mut(0)
         {
-            array.slice(left, right);
+            array.slice(left, right)?;
         }
+        Some(())
     }
 }
 
